@@ -11,8 +11,8 @@ func init() {
 	vfRegister("VerifC19DateSym", VerifC19DateSym)
 }
 
-// vfVersion builds a version string from a skeleton such as "d.dddd.ddddd":
-// every d is an arbitrary decimal digit. It returns the text and the component
+// vfVersion builds a version string from a skeleton such as "d.dddd.ddddd" or "1d.9223372036854775808":
+// every d is an arbitrary decimal digit, other characters are taken as they are. It returns the text and the component
 // values computed independently of strconv.
 func vfVersion(name, skeleton string) (string, []int64) {
 	var bytes []byte
@@ -26,11 +26,21 @@ func vfVersion(name, skeleton string) (string, []int64) {
 			cur = 0
 			continue
 		}
-		c := vfByte(name + "." + strconv.Itoa(n))
-		n++
-		vfAssume(c >= '0' && c <= '9')
+		c := skeleton[i] // a concrete digit, or d = an arbitrary one
+		if c == 'd' {
+			c = vfByte(name + "." + strconv.Itoa(n))
+			n++
+			vfAssume(c >= '0' && c <= '9')
+		}
 		bytes = append(bytes, c)
-		cur = cur*10 + int64(c-'0')
+		// the component value saturates at 10000 (= "too large"), so that components of any
+		// number of digits are classified without wrapping in the reference itself
+		if cur <= 9999 {
+			cur = cur*10 + int64(c-'0')
+		}
+		if cur > 9999 {
+			cur = 10000
+		}
 	}
 	comps = append(comps, cur)
 	return string(bytes), comps
